@@ -68,10 +68,45 @@ type gstruct struct {
 
 // Lean names of Go structs that are mapped onto existing model structures with identical field names.
 var bookExternal = map[string]string{
-	"tableIDs": "TableIDs",
-	"Entity":   "Ent",
-	"bitPool":  "BitPool",
-	"intPool":  "IntPool",
+	"tableIDs":  "TableIDs",
+	"Entity":    "Ent",
+	"bitPool":   "BitPool",
+	"intPool":   "IntPool",
+	"bitMask64": "M64", // Generated/Words.lean (word-level translation of mask64.go)
+}
+
+// zero values of external types without Lean defaults
+var bookExtZero = map[string]string{
+	"bitMask64": "(⟨0#64⟩ : M64)",
+}
+
+// methods of external types that another translator owns (word level, Generated/Words.lean):
+// a call is rendered as an application of that translation; bit arguments are bytes there
+type extMethod struct {
+	lean    string
+	mut     bool
+	ret     *gty
+	bitArgs bool
+}
+
+var bookExtMethods = map[bookFnKey]extMethod{
+	{"bitMask64", "Set"}:    {"M64.Set", true, nil, true},
+	{"bitMask64", "Clear"}:  {"M64.Clear", true, nil, true},
+	{"bitMask64", "Get"}:    {"M64.Get", false, tyBool, true},
+	{"bitMask64", "IsZero"}: {"M64.IsZero", false, tyBool, false},
+	{"bitMask64", "Reset"}:  {"M64.Reset", true, nil, false},
+}
+
+func (c *bctx) extApp(em extMethod, recv string, args []ast.Expr) string {
+	parts := []string{"(" + recv + ")"}
+	for _, a := range args {
+		s, _ := c.expr(a)
+		if em.bitArgs {
+			s = "BitVec.ofNat 8 (" + s + ")"
+		}
+		parts = append(parts, "("+s+")")
+	}
+	return "(" + em.lean + " " + strings.Join(parts, " ") + ")"
 }
 
 type bookFnKey struct{ recv, name string }
@@ -254,6 +289,23 @@ func (b *book) leanType(t *gty) string {
 	return "Unit"
 }
 
+// fieldDefault: Go's zero value as the Lean default of a generated structure's field (where one is known)
+func (b *book) fieldDefault(t *gty) string {
+	switch t.kind {
+	case "int":
+		return " := 0"
+	case "bool":
+		return " := false"
+	case "slice", "map":
+		return " := []"
+	case "named":
+		if z, ok := bookExtZero[t.name]; ok {
+			return " := " + z
+		}
+	}
+	return ""
+}
+
 func (b *book) dflt(t *gty) string {
 	switch t.kind {
 	case "int":
@@ -292,12 +344,13 @@ type bctx struct {
 	info     *bookFnInfo
 	recv     string
 	tmp      int
+	noBind   int // >0 inside a branch that joins or a loop body: a panicking call cannot be bound there
 }
 
 type bcont struct {
-	fall   string                       // text yielded when control falls off the end of the block
-	ret    func(vals []string) string   // `return`
-	cont   string                       // `continue` ("" outside loops)
+	fall string                     // text yielded when control falls off the end of the block
+	ret  func(vals []string) string // `return`
+	cont string                     // `continue` ("" outside loops)
 }
 
 func (c *bctx) bad(n ast.Node, what string) (string, *gty) {
@@ -499,6 +552,9 @@ func (c *bctx) composite(x *ast.CompositeLit) (string, *gty) {
 		}
 		return "[" + strings.Join(parts, ", ") + "]", ty
 	case "named":
+		if z, ok := bookExtZero[ty.name]; ok && len(x.Elts) == 0 {
+			return z, ty
+		}
 		gs, ok := c.b.structs[ty.name]
 		if !ok {
 			break
@@ -551,7 +607,11 @@ func (c *bctx) call(x *ast.CallExpr) (string, *gty) {
 			if ty.kind == "map" {
 				return "[]", ty
 			}
-			return c.bad(x, "make of non-map")
+			if ty.kind == "slice" && len(x.Args) == 2 {
+				n, _ := c.expr(x.Args[1])
+				return "(List.replicate (" + n + ") " + c.b.dflt(ty.elem) + ")", ty
+			}
+			return c.bad(x, "make")
 		case c.b.intTypes[f.Name] && len(x.Args) == 1: // conversion
 			s, _ := c.expr(x.Args[0])
 			return s, tyInt
@@ -590,6 +650,12 @@ func (c *bctx) call(x *ast.CallExpr) (string, *gty) {
 		bt := rt.deref()
 		if bt.kind != "named" {
 			return c.bad(x, "method call on non-struct")
+		}
+		if em, ok := bookExtMethods[bookFnKey{bt.name, f.Sel.Name}]; ok {
+			if em.mut {
+				return c.bad(x, "mutating method call in expression position")
+			}
+			return c.extApp(em, rs, x.Args), em.ret
 		}
 		info := c.b.translate(bookFnKey{bt.name, f.Sel.Name})
 		if info == nil || !info.ok {
@@ -786,6 +852,9 @@ func (c *bctx) markAssigned(names []string) {
 
 // define a new local
 func (c *bctx) define(name string, rhs ast.Expr, out *strings.Builder, ind string) {
+	if ce, ok := rhs.(*ast.CallExpr); ok && c.bindCall(name, ce, out, ind) {
+		return
+	}
 	if name == "_" {
 		return
 	}
@@ -813,6 +882,108 @@ func (c *bctx) define(name string, rhs ast.Expr, out *strings.Builder, ind strin
 	}
 }
 
+// bindCall translates `name := recvExpr.M(args)` (or the bare call, name "_") for a translated method
+// that mutates its receiver and/or may panic: the results are bound by a `let` or, when the callee may
+// panic, by a `match` whose `some` arm is the rest of the function (so it is only possible where the
+// rest of the function is the continuation: not in a branch that joins, not in a loop body).
+func (c *bctx) bindCall(name string, x *ast.CallExpr, out *strings.Builder, ind string) bool {
+	sel, ok := x.Fun.(*ast.SelectorExpr)
+	if !ok {
+		return false
+	}
+	saved := len(problems)
+	rs, rt := c.expr(sel.X)
+	problems = problems[:saved]
+	bt := rt.deref()
+	if bt == nil || bt.kind != "named" {
+		return false
+	}
+	key := bookFnKey{bt.name, sel.Sel.Name}
+	if _, isExt := bookExtMethods[key]; isExt {
+		return false
+	}
+	if fd, _ := c.b.findDecl(key); fd == nil {
+		return false
+	}
+	info := c.b.translate(key)
+	if info == nil || !info.ok || !(info.mutRecv || info.mayPanic) {
+		return false
+	}
+	if len(info.ptrParams) > 0 {
+		c.bad(x, "call of a method that mutates pointer parameters")
+		return true
+	}
+	args := []string{"(" + rs + ")"}
+	for _, a := range x.Args {
+		s, _ := c.expr(a)
+		args = append(args, "("+s+")")
+	}
+	app := "(" + info.callee() + " " + strings.Join(args, " ") + ")"
+	var parts []string
+	r := ""
+	if info.mutRecv {
+		r = c.fresh("recv")
+		parts = append(parts, r)
+	}
+	if info.ret != nil {
+		parts = append(parts, name)
+	}
+	pat := "_"
+	if len(parts) > 0 {
+		pat = tupleOf(parts)
+	}
+	if info.mayPanic {
+		if c.noBind > 0 {
+			c.bad(x, "call of a method that may panic inside a joining branch or a loop")
+			return true
+		}
+		c.mayPanic = true
+		fmt.Fprintf(out, "%smatch %s with\n%s| none => none\n%s| some %s =>\n", ind, app, ind, ind, pat)
+	} else {
+		fmt.Fprintf(out, "%slet %s := %s\n", ind, pat, app)
+	}
+	if info.ret != nil && name != "_" {
+		c.vars[name] = &bvar{ty: info.ret}
+	}
+	if info.mutRecv {
+		c.vars[r] = &bvar{ty: rt.deref()}
+		c.setPath(c.resolve(sel.X), r, out, ind)
+	}
+	return true
+}
+
+// isMutexCall: `x.mu.Lock()` / `x.mu.Unlock()` on a field of a `sync` type. The translation is of the
+// sequential semantics; these calls (and a deferred unlock) are erased. The mutex discipline itself is
+// covered by the structural facts (Generated/FactsMutex.lean) and the race runs.
+func (c *bctx) isMutexCall(x *ast.CallExpr) bool {
+	sel, ok := x.Fun.(*ast.SelectorExpr)
+	if !ok {
+		return false
+	}
+	fs, ok := sel.X.(*ast.SelectorExpr)
+	if !ok {
+		return false
+	}
+	id, ok := fs.X.(*ast.Ident)
+	if !ok {
+		return false
+	}
+	v, ok := c.vars[id.Name]
+	if !ok || v.ty == nil {
+		return false
+	}
+	gs, ok := c.b.structs[v.ty.deref().name]
+	if !ok {
+		return false
+	}
+	for _, fl := range gs.fields {
+		if fl.name == fs.Sel.Name && fl.ty.kind == "named" && strings.HasPrefix(fl.ty.name, "sync.") {
+			return true
+		}
+	}
+	return false
+}
+
 // mutating method call as a statement: recvExpr.M(args)
 func (c *bctx) callStmt(x *ast.CallExpr, out *strings.Builder, ind string, k bcont, tail bool) (handled bool, text string) {
 	sel, ok := x.Fun.(*ast.SelectorExpr)
@@ -824,6 +995,13 @@ func (c *bctx) callStmt(x *ast.CallExpr, out *strings.Builder, ind string, k bco
 	if bt.kind != "named" {
 		return false, ""
 	}
+	if em, ok := bookExtMethods[bookFnKey{bt.name, sel.Sel.Name}]; ok {
+		if em.mut {
+			rs, _ := c.expr(sel.X)
+			c.setPath(c.resolve(sel.X), c.extApp(em, rs, x.Args), out, ind)
+		}
+		return true, ""
+	}
 	info := c.b.translate(bookFnKey{bt.name, sel.Sel.Name})
 	if info == nil || !info.ok {
 		c.bad(x, "call of untranslated method")
@@ -831,6 +1009,12 @@ func (c *bctx) callStmt(x *ast.CallExpr, out *strings.Builder, ind string, k bco
 	}
 	if len(info.ptrParams) > 0 {
 		c.bad(x, "call of a method that mutates pointer parameters")
+		return true, ""
+	}
+	if info.mayPanic {
+		if !c.bindCall("_", x, out, ind) {
+			c.bad(x, "call of a method that may panic")
+		}
 		return true, ""
 	}
 	rs, _ := c.expr(sel.X)
@@ -902,8 +1086,15 @@ func (c *bctx) block(stmts []ast.Stmt, k bcont, out *strings.Builder, ind string
 					continue
 				}
 			}
+			if c.isMutexCall(ce) {
+				continue
+			}
 			if handled, _ := c.callStmt(ce, out, ind, k, false); !handled {
 				c.bad(s, "call statement")
+			}
+		case *ast.DeferStmt:
+			if !c.isMutexCall(s.Call) {
+				c.bad(s, "defer")
 			}
 		case *ast.ReturnStmt:
 			// tail call of a method on the receiver that mutates it
@@ -932,6 +1123,11 @@ func (c *bctx) block(stmts []ast.Stmt, k bcont, out *strings.Builder, ind string
 			}
 			var vals []string
 			for _, r := range s.Results {
+				if id, ok := r.(*ast.Ident); ok && id.Name == "nil" && len(s.Results) == 1 && c.info.ret != nil &&
+					(c.info.ret.kind == "slice" || c.info.ret.kind == "map") {
+					vals = append(vals, "[]") // a nil slice is the empty list
+					continue
+				}
 				rs, _ := c.expr(r)
 				vals = append(vals, rs)
 			}
@@ -1221,7 +1417,9 @@ func (c *bctx) ifStmt(s *ast.IfStmt, rest []ast.Stmt, k bcont, out *strings.Buil
 			return false
 		}
 		fmt.Fprintf(out, "%slet %s :=\n", ind, tup)
+		c.noBind++
 		emitBranches(sub, sub, elseList, out, ind+"  ")
+		c.noBind--
 		c.markAssigned(names)
 		return false
 	default:
@@ -1271,7 +1469,9 @@ func (c *bctx) loop(rangeText string, idxName string, pre func(b *strings.Builde
 		problem("%s: return inside a loop", c.where)
 		return tup
 	}}
+	c.noBind++
 	c.block(body, k, out, ind+"  ")
+	c.noBind--
 	fmt.Fprintf(out, "%s) %s\n", ind+"  ", tup)
 	c.restoreVars(save)
 	c.markAssigned(names)
@@ -1341,7 +1541,9 @@ func (c *bctx) rangeStmt(s *ast.RangeStmt, out *strings.Builder, ind string) {
 			problem("%s: return inside a loop", c.where)
 			return valName
 		}}
+		c.noBind++
 		c.block(s.Body.List, k, &body, ind+"    ")
+		c.noBind--
 		c.restoreVars(save)
 		c.setPath(c.resolve(s.X), "(AL.mapVals ("+xs+") (fun "+valName+" =>\n"+body.String()+ind+"  ))", out, ind)
 	default:
@@ -1634,24 +1836,28 @@ func patchResults(text string, stateVars []string, mayPanic bool) string {
 // ---------------------------------------------------------------------------------------------
 
 type bookGroup struct {
-	file string // generated Lean file name (without extension)
-	doc  string
-	fns  []bookFnKey
+	file  string // generated Lean file name (without extension)
+	doc   string
+	fns   []bookFnKey
+	extra string // further imports
 }
 
 var bookGroups = []bookGroup{
 	{"BookTableIDs", "tableIDs of archetype.go", []bookFnKey{
-		{"", "newTableIDs"}, {"tableIDs", "Append"}, {"tableIDs", "Remove"}, {"tableIDs", "Clear"}}},
+		{"", "newTableIDs"}, {"tableIDs", "Append"}, {"tableIDs", "Remove"}, {"tableIDs", "Clear"}}, ""},
 	{"BookArchetype", "relation-index bookkeeping of archetype.go", []bookFnKey{
 		{"archetype", "HasRelations"}, {"archetype", "GetFreeTable"}, {"archetype", "FreeTable"},
-		{"archetype", "removeTableRelations"}, {"archetype", "FreeAllTables"}, {"archetype", "AddTable"}, {"archetype", "RemoveTarget"}}},
+		{"archetype", "removeTableRelations"}, {"archetype", "FreeAllTables"}, {"archetype", "AddTable"}, {"archetype", "RemoveTarget"}, {"archetype", "GetTables"}}, ""},
 	{"BookPool", "entityPool, bitPool, intPool of pool.go", []bookFnKey{
 		{"entityPool", "getNew"}, {"entityPool", "Get"}, {"entityPool", "Recycle"}, {"entityPool", "Reset"},
 		{"entityPool", "Len"}, {"entityPool", "Cap"},
 		{"bitPool", "getNew"}, {"bitPool", "Get"}, {"bitPool", "Recycle"}, {"bitPool", "Reset"},
-		{"intPool", "Recycle"}, {"intPool", "Reset"}}},
+		{"intPool", "Recycle"}, {"intPool", "Reset"}}, ""},
 	{"BookCache", "filter cache bookkeeping of cache.go", []bookFnKey{
-		{"cache", "getEntry"}, {"cache", "unregister"}, {"cache", "removeTable"}, {"cache", "Reset"}}},
+		{"cache", "getEntry"}, {"cache", "unregister"}, {"cache", "removeTable"}, {"cache", "Reset"}}, ""},
+	{"BookLock", "lock.go over the translated bit pool and the word-level mask (mutex calls erased: sequential semantics)", []bookFnKey{
+		{"", "newBitPool"}, {"", "newLock"}, {"lock", "Lock"}, {"lock", "Unlock"}, {"lock", "LockSafe"}, {"lock", "UnlockSafe"},
+		{"lock", "IsLocked"}, {"lock", "Reset"}}, "import Ark.Generated.Words"},
 }
 
 func genBook(p *pkgFiles, files map[string]string) {
@@ -1685,6 +1891,9 @@ func genBook(p *pkgFiles, files map[string]string) {
 		imports := "import Ark.Basic\nimport Ark.Model.Pool\nimport Ark.Model.Archetype"
 		for _, pf := range prevFiles {
 			imports += "\nimport Ark.Generated." + pf
+		}
+		if g.extra != "" {
+			imports += "\n" + g.extra
 		}
 		out.WriteString(genHeader("T1 (bookkeeping level): "+g.doc+", translated statement by statement; regenerated on every run.", imports))
 		out.WriteString("namespace Book\n\n")
@@ -1724,12 +1933,16 @@ func genBook(p *pkgFiles, files map[string]string) {
 						continue
 					}
 					dep(fl.ty)
-					lines = append(lines, fmt.Sprintf("  %s : %s", fl.name, b.leanType(fl.ty)))
+					lines = append(lines, fmt.Sprintf("  %s : %s%s", fl.name, b.leanType(fl.ty), b.fieldDefault(fl.ty)))
 				}
 			}
 			collect(gs)
-			fmt.Fprintf(&out, "/-- Go `%s` (the fields used by the translated functions) -/\nstructure G_%s where\n%s  deriving Repr, Inhabited, DecidableEq\n\n",
-				name, name, strings.Join(append(lines, ""), "\n"))
+			deriving := "Repr, Inhabited, DecidableEq"
+			if strings.Contains(strings.Join(lines, " "), "M64") {
+				deriving = "DecidableEq"
+			}
+			fmt.Fprintf(&out, "/-- Go `%s` (the fields used by the translated functions) -/\nstructure G_%s where\n%s  deriving %s\n\n",
+				name, name, strings.Join(append(lines, ""), "\n"), deriving)
 		}
 		var need func(t *gty)
 		need = func(t *gty) {
